@@ -96,7 +96,8 @@ type Case struct {
 	DAG    bool   `json:"dag,omitempty"`
 	Spec   *NSpec `json:"spec,omitempty"`
 	Chunks []*V   `json:"chunks"`
-	Inject string `json:"inject,omitempty"` // "", dupkey, nokey: deliberate out-of-domain construction
+	Inject string `json:"inject,omitempty"` // "", dupkey, nokey, fmkey: deliberate out-of-domain construction
+	Front  string `json:"front,omitempty"`  // "" = Graph API, wf = Workflow (field mappings), chain = Chain
 }
 
 type Obs struct {
@@ -138,7 +139,35 @@ func (w *Wrap) coq() string {
 	return lib.CoqApp("Build_swrap", coqHandler(w.Pre), coqKey(w.In), coqKey(w.Out), coqHandler(w.Post))
 }
 
+func (f *FMap) coq() string {
+	if f.Take != nil {
+		return lib.CoqApp("FTake", lib.CoqN(uint64(*f.Take)))
+	}
+	es := make([]string, len(f.To))
+	for i, e := range f.To {
+		from := "None"
+		if e.From != nil {
+			from = lib.CoqSome(lib.CoqN(uint64(*e.From)))
+		}
+		es[i] = lib.CoqPair(from, lib.CoqN(uint64(e.To)))
+	}
+	return lib.CoqApp("FTo", lib.CoqList(es))
+}
+
+// the data edges leaving a node carry its field mapping: node ; mapping
 func (p *Prog) coq() string {
+	base := p.coqBase()
+	if p.Op == "node" && p.N.AnyOut && (p.W == nil || p.W.Out == nil) {
+		// every edge leaving an any-typed node checks the consumer's input type
+		base = lib.CoqApp("SSeq", base, lib.CoqApp("SCheck", coqBool(p.N.AnyMap)))
+	}
+	if p.OutMap != nil {
+		return lib.CoqApp("SSeq", base, lib.CoqApp("SMap", p.OutMap.coq()))
+	}
+	return base
+}
+
+func (p *Prog) coqBase() string {
 	kids := func() string {
 		ks := make([]string, len(p.Kids))
 		for i, k := range p.Kids {
@@ -160,6 +189,10 @@ func (p *Prog) coq() string {
 		return s
 	case "par":
 		return lib.CoqApp("SPar", kids())
+	case "loop":
+		c := lib.CoqApp("Build_lspec", coqBool(p.C.Collect), lib.CoqNat(p.C.Bound), coqBool(p.C.Fail))
+		// every node makes the value at least one character longer: Bound+2 rounds are never reached
+		return lib.CoqApp("SLoop", lib.CoqN(uint64(p.C.ID)), c, p.Kids[0].coq(), lib.CoqNat(p.C.Bound+2))
 	case "branch":
 		c := lib.CoqApp("Build_cspec", coqBool(p.C.Collect), lib.CoqNat(len(p.Kids)), coqBool(p.C.Fail))
 		return lib.CoqApp("SBranch", lib.CoqN(uint64(p.C.ID)), c, kids())
@@ -260,7 +293,7 @@ func (engine) Run(ci any) lib.Result {
 	if c.Kind == "pack" {
 		r = pack(c.Spec, rec)
 	} else {
-		r, err = compile(c.Prog, c.DAG, rec)
+		r, err = compile(c.Prog, c.Front, c.DAG, rec)
 		if err != nil {
 			obs.Err = "compile: " + err.Error()
 			res.Obs, res.Oracle, res.Sig = obs, obs.Err, "harness-compile"
@@ -335,7 +368,7 @@ func (engine) Run(ci any) lib.Result {
 		_ = okUsed
 		res.CoqTerm = lib.CoqApp("CasePack", sp.coq(), lib.CoqList(mapCoq(c.Chunks)),
 			coqRobs(obs.P[0]), coqSobs(obs.P[1]), coqRobs(obs.P[2]), coqSobs(obs.P[3]), lib.CoqList(used))
-		tags = append(tags, "nat:"+natStr(sp.Nat), fmt.Sprintf("pol:%d", sp.Pol), fmt.Sprintf("fail:%d", sp.Fail), fmt.Sprintf("nkind:%d", sp.Kind))
+		tags = append(tags, "nat:"+natStr(sp.Nat), fmt.Sprintf("pol:%d", sp.Pol), fmt.Sprintf("fail:%d", sp.Fail), fmt.Sprintf("nkind:%d", sp.Kind), fmt.Sprintf("anyout:%v", sp.AnyOut))
 		res.Nontrivial = natCount(sp.Nat) < 4
 	} else {
 		calls := "None"
@@ -349,7 +382,11 @@ func (engine) Run(ci any) lib.Result {
 		res.CoqTerm = lib.CoqApp("CaseProg", c.Prog.coq(), lib.CoqList(mapCoq(c.Chunks)),
 			coqRobs(obs.P[0]), coqRobs(obs.P[1]), coqRobs(obs.P[2]), coqRobs(obs.P[3]), calls)
 		st := stats(c.Prog)
-		tags = append(tags, fmt.Sprintf("nodes:%d", st.nodes), fmt.Sprintf("dag:%v", c.DAG))
+		front := c.Front
+		if front == "" {
+			front = "graph"
+		}
+		tags = append(tags, fmt.Sprintf("nodes:%d", st.nodes), fmt.Sprintf("dag:%v", c.DAG), "front:"+front)
 		for _, f := range st.features {
 			tags = append(tags, "has:"+f)
 		}
@@ -401,6 +438,10 @@ func stats(p *Prog) pstats {
 			if q.N.isLive() && q.N.Nat[3] {
 				feat["liveT"] = true
 			}
+			if q.N.AnyOut {
+				feat["anyedge"] = true
+				st.keys++
+			}
 		case "par":
 			st.pars++
 			feat["par"] = true
@@ -410,8 +451,27 @@ func stats(p *Prog) pstats {
 			if q.C.Collect {
 				feat["streambranch"] = true
 			}
+		case "loop":
+			st.branches++
+			feat["loop"] = true
+			if q.C.Collect {
+				feat["streamloopcond"] = true
+			}
 		case "sub":
 			feat["sub"] = true
+			if q.Front != "" {
+				feat["sub-"+q.Front] = true
+			}
+		}
+		if q.OutMap != nil {
+			st.keys++
+			if q.OutMap.Take != nil {
+				feat["fromfield"] = true
+			} else if q.OutMap.To[0].From == nil {
+				feat["tofield"] = true
+			} else {
+				feat["mapfields"] = true
+			}
 		}
 		if q.W != nil {
 			if q.W.In != nil {
@@ -518,6 +578,17 @@ func failSig(c *Case, o Obs) string {
 			})
 			if shared {
 				return "fanin-dupkey:invoke=dupkey-error,stream=ok"
+			}
+		}
+		if strings.Contains(o.P[0].Msg, "field mapping from a map key, but key not found in input") {
+			has := false
+			c.Prog.walk(func(q *Prog) {
+				if q.OutMap != nil && (q.OutMap.Take != nil || len(q.OutMap.To) > 0 && q.OutMap.To[0].From != nil) {
+					has = true
+				}
+			})
+			if has {
+				return "fieldmap-key-missing:invoke=nokey-error,stream=ok"
 			}
 		}
 		if strings.Contains(o.P[0].Msg, "cannot find input key") {
